@@ -103,11 +103,10 @@ theorem ctor_number_determines_code :
 
 /-! ## (d) nil error variables -/
 
-/-- sites still present in the pinned tree (pre-finding F11b; reported by the check, reproduced by the
-    harness law `fatal:nil_error_removed_cwd`) -/
-def knownNilErrorSites : List String :=
-  ["nilerr:lib/query/load_view.go:cacheViewFromFile:err.Error()",
-   "nilerr:lib/query/processor.go:Processor.ExecuteStatement:err.Error()"]
+/-- sites known to violate the rule.  Two existed in the pinned tree (`err.Error()` where `e` was the
+    non-nil error, in cacheViewFromFile and Processor.ExecuteStatement: finding F11b, harness law
+    `fatal:nil_error_removed_cwd`); repaired in /repo, so the list is empty. -/
+def knownNilErrorSites : List String := []
 
 /-- **nil_error_sites_except_known.**  In every package of the module no method is called on an error
     variable at a point where a different error variable is the one established non-nil (and nothing
@@ -135,16 +134,11 @@ def reviewedLocalGuards : List (String × String × String) :=
 def _root_.Csvq.ErrFacts.RecoverFact.safe (f : RecoverFact) : Bool :=
   f.guard == "" || (!f.shared && reviewedLocalGuards.contains (f.file, f.fn, f.guard))
 
-/-- sites still present in the pinned tree: `if !gm.HasError() { recover() }` — once one worker has
-    recorded an error, a panic in a second worker is NOT recovered and kills the process with a raw Go
-    panic (finding F36; harness law `panic:unrecovered_worker`) -/
-def knownSkippedRecoverSites : List String :=
-  ["recover:lib/query/analytic_function.go:Analyze:!gm.HasError()",
-   "recover:lib/query/eval.go:evaluateSequentialRoutine:!gm.HasError()",
-   "recover:lib/query/goroutine_manager.go:GoroutineTaskManager.run:!m.HasError()",
-   "recover:lib/query/join.go:InnerJoin:!gm.HasError()",
-   "recover:lib/query/join.go:OuterJoin:!gm.HasError()",
-   "recover:lib/query/view.go:View.group:!gm.HasError()"]
+/-- sites known to violate the rule.  Six existed in the pinned tree (`if !gm.HasError() { recover() }` in
+    Analyze, evaluateSequentialRoutine, GoroutineTaskManager.run, InnerJoin, OuterJoin, View.group: once one
+    worker had recorded an error a panic in a second worker killed the process — finding F36, harness law
+    `panic:unrecovered_worker`); repaired in /repo, so the list is empty. -/
+def knownSkippedRecoverSites : List String := []
 
 /-- **recover_unconditional_except_known.**  Every `recover()` of the module is unconditional or guarded by
     a reviewed goroutine-local condition — except at the known sites. -/
@@ -157,6 +151,13 @@ theorem recover_unconditional_of_no_known (h : knownSkippedRecoverSites = []) :
   have hall := recover_unconditional_except_known
   rw [h] at hall
   exact all_or_contains_nil _ _ _ hall
+
+/-- **nil_error_sites** (full statement) -/
+theorem nil_error_sites : Gen.nilErrorFacts = [] := nil_error_sites_of_no_known rfl
+
+/-- **recover_unconditional** (full statement) -/
+theorem recover_unconditional : Gen.recoverFacts.all RecoverFact.safe = true :=
+  recover_unconditional_of_no_known rfl
 
 /-- every panic that can reach the top of the statement loop is turned into an error value:
     the processor's own recover is among the facts and is safe -/
